@@ -57,6 +57,7 @@ class TetrisH(Harness):
     INVALID = "terminate"
     TIME_LIMIT = True
     MULTI_DISCRETE = True
+    REF_SPLIT = ("grid_padded",)   # C09: one obligation per grid row (the monolithic 6x6 query needs ~50 s, too close to the timeout under load)
     REF_DRAWS = True          # C09: the reference reads the freshly drawn next piece from S' (shared stub draw)
     SCORES = (0.0, 40.0, 80.0, 100.0, 140.0, 300.0, 1200.0)   # declared finite domain of the `score` accumulator
 
